@@ -401,6 +401,20 @@ func Run(c *core.Ctx) {
 		add(Job{Mode: "stress", Seed: c.Seed*1000 + int64(i), Prog: prog, Src: "stress"})
 	}
 
+	// (queue growth) one worker held by slow callbacks while work for many other groups piles up: the
+	// work queue grows far beyond the in-channel size (the size of its initial buffer)
+	for i := 0; i < c.Pick(8, 40); i++ {
+		prog := Program{Workers: 1 + i%2, InCh: []int{1, 2, 1, 3}[i%4], Producers: map[string][]Sub{}, Shutdown: false, Cycles: 1}
+		var p1, p2 []Sub
+		for k := 0; k < 4+rng.Intn(4); k++ {
+			p1 = append(p1, Sub{Kind: "with", Group: "g1", Slow: true})
+		}
+		for k := 0; k < 10+rng.Intn(10); k++ {
+			p2 = append(p2, Sub{Kind: []string{"with", "withres", "withgroup"}[rng.Intn(3)], Group: []string{"g2", "g3", "g4", "par", "par"}[rng.Intn(5)]})
+		}
+		prog.Producers["p1"], prog.Producers["p2"] = p1, p2
+		add(Job{Mode: "stress", Seed: c.Seed*1000 + 700 + int64(i), Prog: prog, Src: "queue-growth"})
+	}
 	// (immediate restarts) the service is served again as soon as Shutdown has returned, while the
 	// previous Serve call may still be on its way out
 	for i := 0; i < c.Pick(30, 300); i++ {
